@@ -641,7 +641,7 @@ func get(ctx *cli.Context) (*Config, error) {
 			BindPassword:      ctx.String("ldap.bind_password"),
 			UsernameAttribute: ctx.String("ldap.username_attribute"),
 			GroupsQuery:       ctx.String("ldap.groups_query"),
-			CacheTime:         ctx.Duration("ldap.cache_time"),
+			CacheTime:         time.Duration(ctx.Int("ldap.cache_time")),
 		}
 	}
 
